@@ -356,6 +356,18 @@ mod tests {
         assert_eq!(m.to_dec(), s[..s.len() - 1].to_vec());
     }
     #[test]
+    fn division() {
+        let n = Nat::from_dec(b"123456789012345678901234567890123456789012345678901234567890");
+        let d = Nat::from_dec(b"98765432109876543210987");
+        let (q, r) = n.divrem(&d);
+        assert_eq!(q.to_dec(), b"1249999988609375000142391093749550070".to_vec());
+        assert_eq!(q.mul(&d).add(&r), n);
+        let (q, r) = pow10(40).divrem(&pow5(40));
+        assert_eq!(q, Nat::from_u64(1).shl(40));
+        assert!(r.is_zero());
+        assert_eq!(pow5(27).to_u64(), Some(7450580596923828125));
+    }
+    #[test]
     fn mul_add_sub() {
         let a = Nat::from_dec(b"340282366920938463463374607431768211455"); // 2^128-1
         let b = a.mul(&a);
